@@ -464,16 +464,23 @@ Definition step (s : state) (c : choice) : option (state * list label) :=
 
 (* ---- the property as an executable monitor over the label trace -------------------
    good k = "decisions of kind k count".  The monitor remembers whether such a decision has
-   been seen and which service() invocations were entered after it; it fails on an
-   application call by one of those. *)
-Record mon := mkMon { m_dec : bool; m_late : list nat; m_ok : bool }.
-Definition mon0 := mkMon false [] true.
+   been seen, which service() invocations have been entered at all and which of them were
+   entered after the decision; it fails on an application call by one of the latter (and on an
+   application call outside any service() invocation, and on a re-used invocation id, so that
+   "no AppCall for that invocation anywhere in the trace" follows). *)
+Record mon := mkMon { m_dec : bool; m_late : list nat; m_started : list nat; m_ok : bool }.
+Definition mon0 := mkMon false [] [] true.
+
+Definition mem (k : nat) (l : list nat) : bool := existsb (Nat.eqb k) l.
 
 Definition mon_step (good : dkind -> bool) (m : mon) (l : label) : mon :=
   match l with
-  | LDecide k => mkMon (m_dec m || good k) (m_late m) (m_ok m)
-  | LServiceStart k => mkMon (m_dec m) (if m_dec m then k :: m_late m else m_late m) (m_ok m)
-  | LAppCall k _ => mkMon (m_dec m) (m_late m) (m_ok m && negb (existsb (Nat.eqb k) (m_late m)))
+  | LDecide k => mkMon (m_dec m || good k) (m_late m) (m_started m) (m_ok m)
+  | LServiceStart k =>
+      mkMon (m_dec m) (if m_dec m then k :: m_late m else m_late m) (k :: m_started m)
+            (m_ok m && negb (mem k (m_started m)))
+  | LAppCall k _ =>
+      mkMon (m_dec m) (m_late m) (m_started m) (m_ok m && mem k (m_started m) && negb (mem k (m_late m)))
   | _ => m
   end.
 
